@@ -6,8 +6,8 @@ import subprocess, sys, json, os
 EDITS = [
     # (property, file, old, new, expect_violation)
     ("C03", "geneticengine/representations/tree/initializations.py",
-     "x for x in alternatives if self.grammar.get_distance_to_terminal(x) <= (self.max_depth - ctx.depth)\n        ]\n        return self.random.choice(alternatives)",
-     "x for x in alternatives if self.grammar.get_distance_to_terminal(x) < (self.max_depth - ctx.depth)\n        ]\n        return self.random.choice(alternatives)", True),
+     "x for x in alternatives if self.grammar.get_distance_to_terminal(x) <= (self.max_depth - ctx.depth)\n        ]\n        if not alternatives:",
+     "x for x in alternatives if self.grammar.get_distance_to_terminal(x) <= (self.max_depth - ctx.depth + 1)\n        ]\n        if not alternatives:", True),
     ("C03", "geneticengine/representations/tree/initializations.py", "        if self.max_depth < self.grammar.get_min_tree_depth():", "        if self.max_depth <= self.grammar.get_min_tree_depth():", True),
     ("C05", "geneticengine/grammar/grammar.py", "            return int(self.expansion_depthing) + min(\n", "            return int(self.expansion_depthing) + max(\n", True),
     ("C18", "geneticengine/representations/grammatical_evolution/ge.py", "        return v % (max - min + 1) + min", "        return v % (max - min) + min", True),
@@ -22,6 +22,25 @@ EDITS = [
     ("C17", "geneticengine/algorithms/gp/operators/selection.py", "            winner = max(candidates, key=Individual.key_function(problem))", "            winner = min(candidates, key=Individual.key_function(problem))", True),
     ("C02", "geneticengine/grammar/metahandlers/ints.py", "        start_position = random.randint(0, self.maximum_top_limit - range_length)", "        start_position = random.randint(0, self.maximum_top_limit)", True),
     ("C20", "geneticengine/evaluation/recorder.py", "lambda t, i, p, comp=comp:", "lambda t, i, p:", True),
+    # --- synthesis core (create_node and friends)
+    ("C03", "geneticengine/representations/tree/initializations.py", "nctx = LocalSynthesisContext(context.depth + 1, context.nodes + 1, context.expansions + 1, dependent_vals)", "nctx = LocalSynthesisContext(context.depth, context.nodes + 1, context.expansions + 1, dependent_vals)", True),
+    ("C01", "geneticengine/representations/tree/initializations.py", "    elif starting_symbol is bool:\n        return decider.random_bool()", "    elif starting_symbol is bool:\n        return decider.random_int(0, 1)", True),
+    ("C01", "geneticengine/representations/tree/initializations.py", "for t in types)  # TODO", "for t in types[1:])  # TODO", True),
+    ("C10", "geneticengine/representations/tree/initializations.py", "                    compatible_productions.remove(rule)", "                    global_context.grammar.alternatives[starting_symbol].remove(rule)", True),
+    ("C01", "geneticengine/representations/tree/initializations.py", "                args.append(arg)\n                nctx.nodes", "                args.append(arg)\n                args.append(arg)\n                nctx.nodes", True),
+    ("C02", "geneticengine/representations/tree/initializations.py", "            dependent_values = {}\n            nctx", "            dependent_values = dependent_vals\n            nctx", True),
+    ("C07", "geneticengine/representations/grammatical_evolution/ge.py", "        decider = copy(self.decider)\n", "        decider = self.decider\n", True),
+    ("C03", "geneticengine/representations/tree/treebased.py", "context=LocalSynthesisContext(depth=0, nodes=0, expansions=0, dependent_values={}),", "context=LocalSynthesisContext(depth=-1, nodes=0, expansions=0, dependent_values={}),", True),
+    # --- trackers, searches, recorder, choosers
+    ("C12", "geneticengine/evaluation/tracker.py", "                    if not self.is_dominated(old, new_pareto_front):", "                    if self.is_dominated(old, new_pareto_front):", True),
+    ("C14", "geneticengine/algorithms/hill_climbing.py", "for _ in range(self.number_of_mutations)", "for _ in range(self.number_of_mutations + 1)", True),
+    ("C20", "geneticengine/evaluation/recorder.py", "            self.csv_file.flush()\n", "            pass\n", True),
+    ("C19", "geneticengine/representations/tree/initializations.py", "                return max(1, target - self.grammar.get_distance_to_terminal(n))", "                return target - self.grammar.get_distance_to_terminal(n)", True),
+    ("C02", "geneticengine/grammar/metahandlers/lists.py", "            li.append(nv)\n        assert len(li) == size", "            li.append(nv)\n            li.append(nv)\n        assert len(li) >= size", True),
+    ("C16", "geneticengine/algorithms/gp/operators/combinators.py", "            if end - start > 0:\n                yield from step.apply(\n                    problem,\n                    evaluator,\n                    representation,\n                    random,\n                    npopulation,\n                    end - start,\n                    generation,\n                )\n\n    def concat", "            if end - start > 1:\n                yield from step.apply(\n                    problem,\n                    evaluator,\n                    representation,\n                    random,\n                    npopulation,\n                    end - start,\n                    generation,\n                )\n\n    def concat", True),
+    ("C09", "geneticengine/algorithms/gp/operators/evaluation.py", "        evaluator.evaluate(problem, npopulation)\n", "        evaluator.evaluate(problem, npopulation)\n        if npopulation:\n            npopulation[0].metadata[\"seen\"] = generation\n", True),
+    # harmless edits of the synthesis core
+    ("C01", "geneticengine/representations/tree/initializations.py", "            nv = create_node(global_context, inner_type, nctx)\n            nctx.nodes += number_of_nodes(nv)\n            nli.append(nv)", "            elem = create_node(global_context, inner_type, nctx)\n            nctx.nodes += number_of_nodes(elem)\n            nli.append(elem)", False),
     # harmless edits: verdicts must not change
     ("C18", "geneticengine/random/sources.py", "        i = self.randint(0, len(choices) - 1)\n        return choices[i]", "        i = self.randint(0, len(choices) - 1)\n        picked = choices[i]\n        return picked", False),
     ("C15", "geneticengine/algorithms/gp/operators/combinators.py", "        total = sum(self.weights)\n        shares =", "        total = sum(self.weights)\n        # (comment only)\n        shares =", False),
@@ -30,29 +49,30 @@ EDITS = [
 
 
 def main():
+    """Edits are applied to a scratch copy of /repo (outside /repo and /verif), checked through PYVC_REPO, and the copy is removed."""
+    import shutil
     only = sys.argv[1:]
+    scratch = os.environ.get("BATTERY_SCRATCH", "/tmp/battery_scratch")
     ok = True
     rows = []
     for prop, f, old, new, expect in EDITS:
         if only and prop not in only:
             continue
-        path = os.path.join("/repo", f)
+        subprocess.run(["rsync", "-a", "--delete", "--exclude", ".git", "/repo/", scratch + "/"], check=True)
+        path = os.path.join(scratch, f)
         src = open(path).read()
         if src.count(old) != 1:
             print(f"SKIP {prop} {f}: pattern occurs {src.count(old)} times")
             ok = False
             continue
         open(path, "w").write(src.replace(old, new))
-        try:
-            r = subprocess.run(["/verif/bin/check", prop], capture_output=True, text=True, cwd="/verif")
-        finally:
-            open(path, "w").write(src)
+        r = subprocess.run(["/verif/bin/check", prop], capture_output=True, text=True, cwd="/verif", env=dict(os.environ, PYVC_REPO=scratch))
         viol = [l.split("obligation=")[-1] for l in r.stdout.splitlines() if l.startswith("VIOLATION")]
         good = (r.returncode == 1 and viol) if expect else (r.returncode == 0)
         ok &= bool(good)
         rows.append((prop, f.split("/")[-1], new.strip().splitlines()[0][:60], expect, r.returncode, viol[:2]))
-        print(("ok  " if good else "BAD ") + f"{prop} {f.split('/')[-1]:20s} expect_violation={expect} exit={r.returncode} {viol[:2]}")
-    subprocess.run(["git", "-C", "/repo", "status", "--short"])
+        print(("ok  " if good else "BAD ") + f"{prop} {f.split('/')[-1]:20s} expect_violation={expect} exit={r.returncode} {viol[:2]}", flush=True)
+    shutil.rmtree(scratch, ignore_errors=True)
     sys.exit(0 if ok else 1)
 
 
